@@ -183,16 +183,43 @@ where
             {
                 let mut builder: GreenNodeBuilder<S> = GreenNodeBuilder::new();
                 let mut data_indices = VecDeque::new();
+                // The builder panics when it is used with unbalanced events, so we have to make sure
+                // ourselves that the events describe exactly one well-nested tree.
+                let mut open_nodes = 0_usize;
+                let mut root_nodes = 0_usize;
 
                 while let Some(next) = seq.next_element::<Event<'_>>()? {
                     match next {
                         Event::EnterNode(kind, has_data) => {
+                            if open_nodes == 0 {
+                                if root_nodes > 0 {
+                                    return Err(A::Error::custom("invalid serialized tree: more than one root node"));
+                                }
+                                root_nodes += 1;
+                            }
+                            open_nodes += 1;
                             builder.start_node(S::from_raw(kind));
                             data_indices.push_back(has_data);
                         }
-                        Event::Token(kind, text) => builder.token(S::from_raw(kind), &text),
-                        Event::LeaveNode => builder.finish_node(),
+                        Event::Token(kind, text) => {
+                            if open_nodes == 0 {
+                                return Err(A::Error::custom("invalid serialized tree: token outside of the root node"));
+                            }
+                            builder.token(S::from_raw(kind), &text)
+                        }
+                        Event::LeaveNode => {
+                            if open_nodes == 0 {
+                                return Err(A::Error::custom("invalid serialized tree: unbalanced `LeaveNode`"));
+                            }
+                            open_nodes -= 1;
+                            builder.finish_node()
+                        }
                     }
+                }
+                if open_nodes != 0 || root_nodes != 1 {
+                    return Err(A::Error::custom(
+                        "invalid serialized tree: expected exactly one complete root node",
+                    ));
                 }
 
                 let (tree, cache) = builder.finish();
